@@ -3,7 +3,7 @@
 (* coap_lite::Packet as a mutable builder: one operator per public         *)
 (* mutator, applied to the message record of Wire.tla.                     *)
 (***************************************************************************)
-EXTENDS Wire
+EXTENDS Wire, Utf8
 
 \* Packet::new(): version 1, Confirmable, GET, id 0, no token/options/payload
 DefaultMsg == [ver |-> 1, typ |-> 0, code |-> 1, mid |-> 0, tok |-> << >>,
@@ -36,10 +36,23 @@ Apply(m, c) ==
     [] c.f = "set_option"        -> [m EXCEPT !.opts = SetOpt(@, c.a.num, c.a.vs)]
     [] c.f = "clear_option"      -> [m EXCEPT !.opts = ClearOpt(@, c.a.num)]
     [] c.f = "clear_all_options" -> [m EXCEPT !.opts = << >>]
+    \* typed adders / setters (C06): uint values are given as fixed-width digits
+    [] c.f = "add_option_uint"   -> [m EXCEPT !.opts = AddOptVal(@, c.a.num, UintEnc(c.a.digits))]
+    [] c.f = "add_option_str"    -> [m EXCEPT !.opts = AddOptVal(@, c.a.num, c.a.v)]
+    [] c.f = "set_options_uint"  -> [m EXCEPT !.opts = SetOpt(@, c.a.num, [i \in 1 .. Len(c.a.ds) |-> UintEnc(c.a.ds[i])])]
+    [] c.f = "set_observe_value" -> [m EXCEPT !.opts = SetOpt(@, 6, << UintEnc(c.a.digits) >>)]
 
 \* a JSON-projected packet as a message record (the projection also has tkl)
 MsgOf(j) == [ver |-> j.ver, typ |-> j.typ, code |-> j.code, mid |-> j.mid,
              tok |-> j.tok, opts |-> j.opts, pay |-> j.pay]
+
+(* ---- typed views (C06): element by element, in order ---------------------- *)
+\* get_options_as::<uint of width w>(num): none if the number has no entry
+UintView(m, num, w) == [i \in 1 .. Len(ValsOf(m.opts, num)) |-> UintDec(ValsOf(m.opts, num)[i], w)]
+StrView(m, num)     == [i \in 1 .. Len(ValsOf(m.opts, num)) |-> WellFormed(ValsOf(m.opts, num)[i])]
+\* get_observe_value(): first Observe value at width 4
+ObserveView(m) == IF ValsOf(m.opts, 6) = << >> THEN [some |-> FALSE]
+                  ELSE [some |-> TRUE, r |-> UintDec(ValsOf(m.opts, 6)[1], 4)]
 
 SortedOpts(m) == \A i \in 1 .. Len(m.opts) - 1 : m.opts[i][1] < m.opts[i + 1][1]
 
